@@ -16,8 +16,8 @@ import (
 
 func TestMain(m *testing.M) {
 	kit.Register("tree", treeOracle)
-	kit.Describe("case = (initial forest over a pool of 4..7 nodes of mixed concrete types, operation list of AppendChild / InsertBefore (nil, child or foreign reference) / InsertAfter / ReplaceChild / RemoveChild (child or not) / RemoveChildren / SortChildren (comparator from a key assignment), walker status script); operations whose documented precondition fails on the model (insertee is the parent or one of its ancestors, insertee == reference) are skipped by the oracle itself; after every operation every pool node's forward and backward child sequence, Parent, ChildCount and HasChildren are compared with a list-of-children model; finally ast.Walk started on every node (roots and inner nodes: the walk must stay inside that node's subtree) is compared (events and returned error) with a reference recursion under the status script. Thorough enumerates all sequences of length <= 3 over a pool of 4 nodes from 4 initial forests exhaustively (quick: length <= 2). non-trivial = the sequence moves a node between parents or inserts relative to a first/last/foreign reference, and the final forest has depth >= 2; distinct by hash of the case",
-		"SortChildren is checked with a validity predicate (a permutation, non-decreasing under the comparator): stability is not documented", "calling a method on a nil reference (InsertAfter/ReplaceChild with nil) is outside the documented contract and not generated")
+	kit.Describe("case = (initial forest over a pool of 4..7 nodes of mixed concrete types, operation list of AppendChild / InsertBefore / InsertAfter / ReplaceChild (each with a nil, child or foreign reference) / RemoveChild (child or not) / RemoveChildren / SortChildren (comparator from a key assignment), walker status script); operations whose documented precondition fails on the model (insertee is the parent or one of its ancestors, insertee == reference) are skipped by the oracle itself; after every operation every pool node's forward and backward child sequence, Parent, ChildCount and HasChildren are compared with a list-of-children model; finally ast.Walk started on every node (roots and inner nodes: the walk must stay inside that node's subtree) is compared (events and returned error) with a reference recursion under the status script. Thorough enumerates all sequences of length <= 3 over a pool of 4 nodes from 4 initial forests exhaustively (quick: length <= 2). non-trivial = the sequence moves a node between parents or inserts relative to a first/last/foreign reference, and the final forest has depth >= 2; distinct by hash of the case",
+		"SortChildren is checked with a validity predicate (a permutation, non-decreasing under the comparator): stability is not documented", "a nil reference is generated for InsertBefore, InsertAfter and ReplaceChild alike (nil is not a child of the node, so the documented meaning is append; for ReplaceChild nothing is removed)")
 	kit.Main(m, "C13")
 }
 
@@ -181,9 +181,6 @@ func apply(m *model, nodes []ast.Node, o op, st *stats) (bool, error) {
 			if o.r == o.c {
 				return false, nil
 			}
-			if o.r == -1 && o.kind != 'B' {
-				return false, nil
-			}
 			if o.r != -1 && !in(o.r) {
 				return false, nil
 			}
@@ -224,7 +221,7 @@ func apply(m *model, nodes []ast.Node, o op, st *stats) (bool, error) {
 		if m.parent[o.c] != -1 && m.parent[o.c] != o.p {
 			st.moved++
 		}
-		foreign := m.parent[o.r] != o.p
+		foreign := o.r == -1 || m.parent[o.r] != o.p
 		if foreign || m.index(o.p, o.r) == len(m.kids[o.p])-1 {
 			st.edgeRef++
 		}
@@ -234,12 +231,12 @@ func apply(m *model, nodes []ast.Node, o op, st *stats) (bool, error) {
 		} else {
 			m.insertAt(o.p, m.index(o.p, o.r)+1, o.c)
 		}
-		nodes[o.p].InsertAfter(nodes[o.p], nodes[o.r], nodes[o.c])
+		nodes[o.p].InsertAfter(nodes[o.p], refNode(nodes, o.r), nodes[o.c])
 	case 'R':
 		if m.parent[o.c] != -1 && m.parent[o.c] != o.p {
 			st.moved++
 		}
-		foreign := m.parent[o.r] != o.p
+		foreign := o.r == -1 || m.parent[o.r] != o.p
 		if foreign {
 			st.edgeRef++
 		}
@@ -251,7 +248,7 @@ func apply(m *model, nodes []ast.Node, o op, st *stats) (bool, error) {
 			m.insertAt(o.p, i, o.c)
 			m.detach(o.r)
 		}
-		nodes[o.p].ReplaceChild(nodes[o.p], nodes[o.r], nodes[o.c])
+		nodes[o.p].ReplaceChild(nodes[o.p], refNode(nodes, o.r), nodes[o.c])
 	case 'D':
 		if m.parent[o.c] == o.p {
 			m.detach(o.c)
@@ -299,6 +296,14 @@ func apply(m *model, nodes []ast.Node, o op, st *stats) (bool, error) {
 	}
 	st.applied++
 	return true, nil
+}
+
+// refNode returns the reference node of an insertion; -1 stands for a nil reference.
+func refNode(nodes []ast.Node, r int) ast.Node {
+	if r == -1 {
+		return nil
+	}
+	return nodes[r]
 }
 
 func samePerm(a, b []int) bool {
@@ -511,10 +516,8 @@ func drawOp(t *rapid.T, n int) op {
 	o.p = rapid.IntRange(0, n-1).Draw(t, "p")
 	o.c = rapid.IntRange(0, n-1).Draw(t, "c")
 	switch kind {
-	case 'B':
+	case 'B', 'F', 'R':
 		o.r = rapid.IntRange(-1, n-1).Draw(t, "r")
-	case 'F', 'R':
-		o.r = rapid.IntRange(0, n-1).Draw(t, "r")
 	case 'S':
 		var sb strings.Builder
 		for i := 0; i < n; i++ {
@@ -553,10 +556,7 @@ func allOps(n int) []op {
 		for c := 0; c < n; c++ {
 			ops = append(ops, op{kind: 'A', p: p, c: c, r: -1}, op{kind: 'D', p: p, c: c, r: -1})
 			for r := -1; r < n; r++ {
-				ops = append(ops, op{kind: 'B', p: p, r: r, c: c})
-				if r >= 0 {
-					ops = append(ops, op{kind: 'F', p: p, r: r, c: c}, op{kind: 'R', p: p, r: r, c: c})
-				}
+				ops = append(ops, op{kind: 'B', p: p, r: r, c: c}, op{kind: 'F', p: p, r: r, c: c}, op{kind: 'R', p: p, r: r, c: c})
 			}
 		}
 		ops = append(ops, op{kind: 'X', p: p, r: -1}, op{kind: 'S', p: p, r: -1, keys: "0123"}, op{kind: 'S', p: p, r: -1, keys: "3110"})
